@@ -68,6 +68,7 @@ func init() {
 		"time.Sleep":                       icSleep,
 		"(*sync.Mutex).Lock":               icMutexLock,
 		"(*sync.Mutex).Unlock":             icMutexUnlock,
+		"(*sync.Mutex).TryLock":            icMutexTryLock,
 		"(*sync.Once).Do":                  icOnceDo,
 		"(*sync.WaitGroup).Add":            icWGAdd,
 		"(*sync.WaitGroup).Done":           icWGDone,
@@ -1015,6 +1016,23 @@ func icMutexLock(e *Engine, fr *frame, fn *ssa.Function, args []Value, c *ssa.Ca
 		e.raceAdd('a', st, e.curPos(), false, 0)
 	}
 	return nil, true
+}
+
+// TryLock never blocks: it is a scheduling point (scheduled mode), then
+// acquires the mutex iff it is free.
+func icMutexTryLock(e *Engine, fr *frame, fn *ssa.Function, args []Value, c *ssa.CallCommon) (Value, bool) {
+	st := fieldCell(e, args[0].(*Pointer), "state")
+	if e.threads != nil {
+		e.threads.yield(e, "trylock")
+	}
+	if st.v.(*Term).lo != 0 {
+		return e.tt.False, true
+	}
+	st.v = e.tt.Const(32, 1)
+	if e.raceOn() {
+		e.raceAdd('a', st, e.curPos(), false, 0)
+	}
+	return e.tt.True, true
 }
 
 func icMutexUnlock(e *Engine, fr *frame, fn *ssa.Function, args []Value, c *ssa.CallCommon) (Value, bool) {
